@@ -233,8 +233,11 @@ func (g *gen) itemsBody(d int, c gctx, mk func(tagsAfter []int64, own []int64) g
 	for j := range slots {
 		slots[j] = g.rng.Intn(nst + 1)
 		if g.safe || g.rng.Chance(70) {
-			// mostly after the spine statement, so that a forward go exists
+			// mostly after the spine statement, so that a forward go exists; often right after it
 			slots[j] = p + 1 + g.rng.Intn(nst-p)
+			if g.rng.Chance(40) {
+				slots[j] = p + 1
+			}
 		}
 	}
 	var items []Item
@@ -249,6 +252,12 @@ func (g *gen) itemsBody(d int, c gctx, mk func(tagsAfter []int64, own []int64) g
 			stIdx = append(stIdx, len(items))
 			items = append(items, Item{})
 		}
+	}
+	if n := len(items); n > 0 && items[n-1].IsTag && g.rng.Chance(75) {
+		// something to observe after the last tag
+		stIdx = append(stIdx, len(items))
+		items = append(items, Item{})
+		nst++
 	}
 	for i := 0; i < nst; i++ {
 		var after []int64
